@@ -453,4 +453,10 @@ def check(ctx: Ctx) -> str:
     from .c07 import undeclared_visitor_rule
 
     undeclared_visitor_rule(ctx, "R10")
+    # a call block hands its body to the macro under the name `caller` whatever the other
+    # arguments are called: consistently renaming a macro parameter (to `class`, say, which
+    # takes the **{...} keyword form) must not change what is passed (rule owned by C02 / C06)
+    from .c02 import call_emission_rule
+
+    call_emission_rule(ctx, "R11")
     return __doc__ or ""
